@@ -4931,18 +4931,27 @@ class DecRoAffine(RoAffine):
                 for i in arg.values.index:
                     rvecs.loc[i, index] = arg.values.loc[i].ravel()
 
-        raffine_values = self.raffine()
-        affine_values = self.affine()
+        # both parts are evaluated as expressions of the dro decisions
+        dro_model = self.dec_model.top
+        raffine, affine = self.raffine, self.affine
+        if not isinstance(raffine, DecAffine):
+            raffine = DecAffine(dro_model, raffine, self.event_adapt)
+        if not isinstance(affine, DecAffine):
+            affine = DecAffine(dro_model, affine, self.event_adapt)
+        raffine_values = raffine(*args)
+        affine_values = affine(*args)
 
-        if isinstance(raffine_values, pd.Series) or sw:
+        series = (isinstance(raffine_values, pd.Series) or
+                  isinstance(affine_values, pd.Series))
+        if series or sw:
             output = []
             for i in rvecs.index:
-                if isinstance(raffine_values, pd.Series):
-                    raffine_value = raffine_values.loc[i]
-                    affine_value = affine_values.loc[i]
-                else:
-                    raffine_value = raffine_values
-                    affine_value = affine_values
+                raffine_value = (raffine_values.loc[i]
+                                 if isinstance(raffine_values, pd.Series)
+                                 else raffine_values)
+                affine_value = (affine_values.loc[i]
+                                if isinstance(affine_values, pd.Series)
+                                else affine_values)
                 nrand = raffine_value.shape[1]
 
                 item = (raffine_value@rvecs.loc[i].values[:nrand]).reshape(self.shape)
